@@ -326,6 +326,22 @@ impl<T: BFlavor> Model for BModel<T> {
                 out.push((json!({"with_qualifiers": [label, t]}), BState { real, refb }));
             }
         }
+        // qualifiers constructed with try_from_iter from pairs in zig-zag key order, put into a builder
+        for (label, pairs) in [
+            ("zigzag4", vec![("b", "2"), ("d", "4"), ("a", "1"), ("c", "3")]),
+            ("zigzag3", vec![("vcs_url", "x"), ("download_url", "y"), ("file_name", "z")]),
+        ] {
+            if let Ok(q) = purl::Qualifiers::try_from_iter(pairs.iter().copied()) {
+                let t = T::type_universe().into_iter().next().unwrap();
+                let mut real = GenericPurlBuilder::new(T::make(&t), "n").with_namespace("g");
+                real.parts.qualifiers = q;
+                let mut refb = RefBuilder { ty: t.clone(), ns: "g".into(), name: "n".into(), ..Default::default() };
+                for (k, v) in &pairs {
+                    refb.quals.insert((*k).to_owned(), (*v).to_owned());
+                }
+                out.push((json!({"try_from_iter": label}), BState { real, refb }));
+            }
+        }
         // non-initial states: into_builder() of parsed values
         if self.parsed_inits > 0 {
             let l = lens::lens("A1b");
